@@ -93,6 +93,14 @@ def main():
             traceback.print_exc()
             ctx.fail_input(ctx.last_case, 'the code under test raised %s: %s at %s:%d (%s) on this generated case (or the one generated right after it)'
                            % (type(e).__name__, str(e)[:120], os.path.relpath(f.filename, repo), f.lineno, f.name))
+        elif isinstance(e, (TypeError, IndexError, ValueError, KeyError, AttributeError, AssertionError, ZeroDivisionError)) \
+                and getattr(ctx, 'last_case', None) is not None:
+            # the harness could not even READ what the code produced for a generated case (another type / shape / missing field than
+            # the model of the code says): that is a correspondence break on that case, to be followed by the failing-input search
+            traceback.print_exc()
+            f = tb[-1]
+            ctx.corr_break('observation', ctx.last_case, 'an observable of the modelled type/shape',
+                           '%s: %s at %s:%d' % (type(e).__name__, str(e)[:120], os.path.basename(f.filename), f.lineno))
         else:
             traceback.print_exc()
             print('INFRA: harness crashed')
